@@ -17,13 +17,14 @@ MODEL = {"valid1": 0x030B, "validb": 0x0E01, "validr": 0x0C02}
 
 
 def _bytes_ascii_name(path, tag, n):
-    """n free bytes; the name field 42..73 is flagged ASCII (constrained < 128)"""
+    """n free bytes, except the name field 42..73 which is the concrete text "Switcher <tag>" NUL padded
+    (C05 decides the name decoding over every UTF-8 name; here it only has to be carried along)"""
     d = A.fresh_bytes(path, tag, n)
+    name = ("Switcher " + tag).encode()[:32].ljust(32, b"\x00")
+    items = list(d.items)
     for k in range(42, min(74, n)):
-        u = d.items[k]
-        u.ascii = True
-        path.constrain(z3.ULT(u.t, 128))
-    return d
+        items[k] = name[k - 42]
+    return SymSeq("bytes", items)
 
 
 def make_datagram(path, cls, tag):
@@ -165,7 +166,7 @@ def main(tier):
                   "undecodable field}; every byte of every datagram symbolic under its class predicate; one symbolic bit per callback "
                   "invocation decides whether the user's callback raises",
              bounds={"sequence length": 2 if tier == "quick" else 3, "ports": "1..2" if tier == "quick" else "1..4",
-                     "valid datagrams": "all bytes symbolic; model, Breeze mode/fan and Runner direction pinned, ASCII names (C05 covers the full field domain)"},
+                     "valid datagrams": "all bytes symbolic except a concrete name; model, Breeze mode/fan and Runner direction pinned (C05 covers the full field domain)"},
              assumptions=["asyncio delivery contract (DESIGN 3.3): datagrams of a socket are handed to datagram_received in arrival order, "
                           "exceptions escaping it are logged by the loop and delivery continues",
                           "the write-set monitor of C03/C05 paths: the parser keeps no state between datagrams"],
